@@ -909,8 +909,12 @@ def parallel_grow_cases(rep, count=1):
             crop.sow_combos({"a": list(range(1, n + 1))}, verbosity=0)
             sink = io.StringIO()
             with contextlib.redirect_stdout(sink), contextlib.redirect_stderr(sink):
-                for b in (2, 1):
-                    xyz.grow(b, crop=xyz.Crop(name="pg", parent_dir=tmp), num_workers=2, verbosity=0)
+                if t % 2 == 0:
+                    for b in (2, 1):
+                        xyz.grow(b, crop=xyz.Crop(name="pg", parent_dir=tmp), num_workers=2, verbosity=0)
+                else:
+                    # Crop.grow_missing(num_workers=..): the batches themselves are spread over the workers
+                    xyz.Crop(name="pg", parent_dir=tmp).grow_missing(num_workers=2, verbosity=0)
                 res = xyz.Crop(name="pg", parent_dir=tmp).reap()
             want = tuple(float(100 * a + 3) for a in range(1, n + 1))
             case = dict(kind="parallel_grow", n=n, batchsize=bs, num_workers=2)
